@@ -41,6 +41,23 @@ func init() {
 		return p
 	}
 	externals["crypto/tls.Client"] = externals["crypto/tls.Server"]
+	// tls.Dial returns the connection registered by the harness with vf.TLSDialTarget
+	// (already "handshaken"), or an error if none is registered.
+	externals["crypto/tls.Dial"] = func(fr *frame, args []value) value {
+		fr.i.noteAssumption("crypto/tls.Dial returns a pass-through connection to the harness's server endpoint (or fails, as chosen by the harness)")
+		t := fr.i.ctx.tlsDialTarget
+		if t.t == nil {
+			return tuple{(*value)(nil), fr.newError("dial tcp: connection refused")}
+		}
+		cell := zero(fr.i.namedType("crypto/tls", "Conn"))
+		p := &cell
+		fr.i.ctx.tlsConns[p] = &tlsState{inner: t, handshook: true}
+		return tuple{p, nilError()}
+	}
+	externals[vfPkg+".TLSDialTarget"] = func(fr *frame, args []value) value {
+		fr.i.ctx.tlsDialTarget = args[0].(iface)
+		return nil
+	}
 	handshake := func(fr *frame, args []value) value {
 		st := fr.tlsOf(args[0])
 		if st.handshook {
